@@ -107,38 +107,71 @@ func fmtOperand(fr *frame, verb byte, spec string, a value) value {
 	return toString(a)
 }
 
-func fmtRender(fr *frame, format string, args []value) (value, iface) {
+func fmtRender(fr *frame, formatV value, args []value) (value, iface) {
 	var out symstr
 	var wrapped iface
 	argi := 0
 	emit := func(v value) { out = append(out, toSymstr(v)...) }
-	for i := 0; i < len(format); i++ {
-		c := format[i]
-		if c != '%' {
-			out = append(out, c)
+	fs := toSymstr(formatV)
+	// isByte decides whether format byte k is c (a decision when the byte is symbolic)
+	isByte := func(k int, c byte) bool {
+		switch b := fs[k].(type) {
+		case uint8:
+			return b == c
+		case sym:
+			return ex.branch(mkEq(b.t, mkConst(8, uint64(c))))
+		}
+		return false
+	}
+	for i := 0; i < len(fs); i++ {
+		if !isByte(i, '%') {
+			out = append(out, fs[i])
 			continue
 		}
 		j := i + 1
-		for j < len(format) && strings.IndexByte("+-# 0123456789.", format[j]) >= 0 {
+		for j < len(fs) {
+			cb, conc := fs[j].(uint8)
+			if !conc || strings.IndexByte("+-# 0123456789.", cb) < 0 {
+				break
+			}
 			j++
 		}
-		if j >= len(format) {
+		if j >= len(fs) {
 			emit("%!(NOVERB)")
 			break
 		}
-		verb := format[j]
-		spec := format[i : j+1]
+		var verb byte
+		if cb, conc := fs[j].(uint8); conc {
+			verb = cb
+		} else if isByte(j, '%') {
+			verb = '%'
+		} else if isByte(j, 'v') {
+			verb = 'v'
+		} else if isByte(j, 's') {
+			verb = 's'
+		} else {
+			verb = '?' // some other (symbolic) verb: rendered as fmt's bad-verb form
+		}
+		spec := "%"
+		for k := i + 1; k < j; k++ {
+			spec += string([]byte{fs[k].(uint8)})
+		}
+		spec += string([]byte{verb})
 		i = j
 		if verb == '%' {
-			out = append(out, '%')
+			out = append(out, uint8('%'))
 			continue
 		}
 		if argi >= len(args) {
-			emit("%!" + string(verb) + "(MISSING)")
+			emit("%!" + string([]byte{verb}) + "(MISSING)")
 			continue
 		}
 		a := args[argi]
 		argi++
+		if verb == '?' {
+			emit("%!?(BADVERB)")
+			continue
+		}
 		if verb == 'w' {
 			if itf, ok := a.(iface); ok {
 				wrapped = itf
@@ -172,7 +205,7 @@ func registerFmtModels(i *interpreter) {
 	}
 	externals["fmt.Errorf"] = func(fr *frame, args []value) value {
 		modelsHit["fmt.Errorf"]++
-		msg, wrapped := fmtRender(fr, asStr(args[0]), variadic(args, 1))
+		msg, wrapped := fmtRender(fr, args[0], variadic(args, 1))
 		if wrapped.t != nil && wrapT != nil {
 			// &fmt.wrapError{msg, err}: Error() and Unwrap() are then interpreted from fmt's SSA
 			var cell value = structure{msg, wrapped}
@@ -182,7 +215,7 @@ func registerFmtModels(i *interpreter) {
 	}
 	externals["fmt.Sprintf"] = func(fr *frame, args []value) value {
 		modelsHit["fmt.Sprintf"]++
-		s, _ := fmtRender(fr, asStr(args[0]), variadic(args, 1))
+		s, _ := fmtRender(fr, args[0], variadic(args, 1))
 		return s
 	}
 	externals["fmt.Sprint"] = func(fr *frame, args []value) value {
